@@ -308,6 +308,15 @@ func (g *bindGen) outputExpr(p *stmtPlan) string {
 		if r.chance(1, 10) {
 			cols = append(cols, "extra")
 		}
+		// misplaced asterisks: one among several columns, one among several member types
+		if r.chance(1, 8) {
+			cols[r.intn(len(cols))] = tbl + "*"
+		}
+		if r.chance(1, 8) {
+			t := g.structName()
+			p.use(t, false)
+			tys[r.intn(len(tys))] = "&" + t + ".*"
+		}
 		return "(" + strings.Join(cols, ", ") + ") AS (" + strings.Join(tys, ", ") + ")"
 	default:
 		// several types: * AS (&P.*, &A.id)
